@@ -34,6 +34,10 @@ impl Slot {
         SLOT_TABLE.with_borrow_mut(|tab| {
             let old_val = tab.fresh_idx;
             tab.fresh_idx += 4;
+            #[cfg(slotted_egraphs_verif)]
+            {
+                tab.fresh_idx += 4 * crate::verif::fresh_stride();
+            }
             Slot(old_val)
         })
     }
